@@ -274,6 +274,8 @@ pub fn next_solution<'a>(sn: Rc<RefCell<SolutionNode<'a>>>)
                 Some(child_sn) => {
                     let solution = next_solution(Rc::clone(&child_sn));
                     if solution.is_some() { return solution; }
+                    // A cut in the body of the rule commits to that rule.
+                    if sn_ref.no_backtracking { return None; }
                 },
             }
 
@@ -305,6 +307,9 @@ pub fn next_solution<'a>(sn: Rc<RefCell<SolutionNode<'a>>>)
                         sn_ref.child = Some(Rc::clone(&child_sn));
                         let child_solution = next_solution(child_sn);
                         if child_solution.is_some() { return child_solution; }
+                        // If a cut was executed in the body of this rule, and
+                        // the goals after it failed, do not try other rules.
+                        if sn_ref.no_backtracking { return None; }
                     },
                 } // match
             }
